@@ -1,7 +1,7 @@
 """C03 - published theory and claims are exactly what was declared; symbol numbering is a first-use injection;
 modules that cannot be encoded are refused."""
 import random
-import pi2v, gen, lem, exprs, c02
+import pi2v, gen, lem, exprs, c02, pexp
 from pi2v import tkey
 
 C03_CLAUSES = ('journal-axioms', 'journal-claims', 'journal-proved', 'symtab')
@@ -28,3 +28,10 @@ def run(v, tier):
                 v.fail(f"oversize-encoded:{tkey(q['module'])[:200]}:{key}", f"a module that cannot be encoded in one byte per id was serialised without error ({key})",
                        {'family': 'module', 'case': {'spec': q['module']}})
     v.cov['oversize_modules_refused'] = len(big)
+    # whole modules enumerated by the model (MC_ProofExp) with the three files ProofExpRun predicts for them
+    rng = random.Random(pi2v.SEED)
+    mcases, mres = pexp.run_modules(v, 'C03', limit=250 if quick else None, rng=rng)
+    for f in mres.fails:
+        c = mcases[f[1] - 1]
+        v.fail(f"pmod/{f[2]}:{tkey(c['m'])}", f"model-generated module {tkey(c['m'])[:300]}: clause {f[2]} (toolkit error {c['error'][:80]!r}, rust says {c['rust']})",
+               {'family': 'pmod', 'case': c})
